@@ -10,6 +10,41 @@ uint8_t vp_nondet_u8(void) { uint8_t vp_nd_value = nondet_u8(); return vp_nd_val
 _Bool vp_nondet_bool(void) { uint8_t vp_nd_value = nondet_u8(); __CPROVER_assume(vp_nd_value <= 1); return vp_nd_value; }
 void vp_observe(uint64_t v) { (void)v; }
 #endif
+#ifdef __CPROVER__
+#define VP_MULTAB 8
+static uint64_t vp_ma[VP_MULTAB], vp_mb[VP_MULTAB];
+static vp_u128 vp_mt[VP_MULTAB];
+static unsigned vp_mn;
+vp_u128 vp_mul64x64(uint64_t a, uint64_t b)
+{
+  vp_u128 t = (vp_u128)a * (vp_u128)b;
+  for (unsigned j = 0; j < VP_MULTAB; ++j)
+    if (j < vp_mn && ((a == vp_ma[j] && b == vp_mb[j]) || (a == vp_mb[j] && b == vp_ma[j])))
+      __CPROVER_assume(t == vp_mt[j]);           /* a true fact: functional consistency */
+  if (vp_mn < VP_MULTAB) { vp_ma[vp_mn] = a; vp_mb[vp_mn] = b; vp_mt[vp_mn] = t; vp_mn++; }
+  return t;
+}
+/* q = a / b, r = a % b with the defining identity routed through the same table:
+   q * b + r == a, r < b */
+uint64_t vp_udiv64(uint64_t a, uint64_t b)
+{
+  uint64_t q = a / b, r = a % b;
+  vp_u128 t = vp_mul64x64(q, b);
+  __CPROVER_assume(t + r == (vp_u128)a && r < b);   /* true by definition of / and % */
+  return q;
+}
+uint64_t vp_urem64(uint64_t a, uint64_t b)
+{
+  uint64_t q = a / b, r = a % b;
+  vp_u128 t = vp_mul64x64(q, b);
+  __CPROVER_assume(t + r == (vp_u128)a && r < b);
+  return r;
+}
+#else
+vp_u128 vp_mul64x64(uint64_t a, uint64_t b) { return (vp_u128)a * (vp_u128)b; }
+uint64_t vp_udiv64(uint64_t a, uint64_t b) { return a / b; }
+uint64_t vp_urem64(uint64_t a, uint64_t b) { return a % b; }
+#endif
 _Bool vp_exc_pending(void) { return __vp_exc.pending != 0; }
 void vp_exc_clear(void)
 {
